@@ -27,11 +27,12 @@ func seededMain(args []string) int {
 	verif := fs.String("verif", "/verif", "verif dir")
 	one := fs.String("one", "", "internal: run a single seeded dir in this process")
 	allProps := fs.Bool("all", false, "run every property, not only the one named in meta.json")
+	root := fs.String("root", "seeded", "sub-directory of <verif> holding the patches (seeded: breakages, must fire; benign: behaviour-preserving refactors, must stay silent)")
 	fs.Parse(args)
 	if *one != "" {
 		return seededOne(*one, *repo, *verif, *allProps)
 	}
-	dirs, _ := filepath.Glob(filepath.Join(*verif, "seeded", "*", "patch.diff"))
+	dirs, _ := filepath.Glob(filepath.Join(*verif, *root, "*", "patch.diff"))
 	sort.Strings(dirs)
 	caught, missed := 0, 0
 	for _, pd := range dirs {
